@@ -63,6 +63,27 @@ func numIsLessThan(x, y Value) bool {
 	return false
 }
 
+// numIsLessOrEqual returns x <= y for two numbers (false if either is NaN).
+func numIsLessOrEqual(x, y Value) bool {
+	switch x.iface.(type) {
+	case int64:
+		switch y.iface.(type) {
+		case int64:
+			return x.AsInt() <= y.AsInt()
+		case float64:
+			return leIntAndFloat(x.AsInt(), y.AsFloat())
+		}
+	case float64:
+		switch y.iface.(type) {
+		case int64:
+			return leFloatAndInt(x.AsFloat(), y.AsInt())
+		case float64:
+			return x.AsFloat() <= y.AsFloat()
+		}
+	}
+	return false
+}
+
 func isLessThan(x, y Value) (bool, bool) {
 	switch x.iface.(type) {
 	case int64:
